@@ -1539,6 +1539,8 @@ def flags_stream(res: Result, tier: str, r: Any, scratch: Path, driver_ok: bool)
     from lib import PinnedClock, request_j, request_policy_j, run_impl
 
     cases = flag_cases(tier, r)
+    for idx, c in enumerate(cases):
+        c["idx"] = idx
     switchable = list(corr_C05.TIMING_FLAGS) + ["check_keys_match_ksk_operator_policy", "signature_algorithms_match_zsk_policy"]
     rows: list[dict[str, Any]] = []
     lines: list[dict[str, Any]] = []
@@ -1558,14 +1560,14 @@ def flags_stream(res: Result, tier: str, r: Any, scratch: Path, driver_ok: bool)
     baseline: dict[str, Any] = {}
     for row in rows:
         if not row["off"]:
-            baseline[row["case"]["tag"] + str(row["case"]["n"]) + row["case"]["kind"]] = row["impl"]
+            baseline[row["case"]["idx"]] = row["impl"]
     for row, m in zip(rows, models):
         c, off, impl = row["case"], row["off"], row["impl"]
         rec = {"stream": "flags", "tag": c["tag"], "case": c, "off": off}
-        res.count({"stream": "flags", "tag": c["tag"], "n": c["n"], "kind": c["kind"], "off": off})
+        res.count({"stream": "flags", "idx": c["idx"], "tag": c["tag"], "n": c["n"], "kind": c["kind"], "off": off})
         res.bump("stream:flags")
         res.bump("flags:violates:" + c["violates"])
-        base = baseline[c["tag"] + str(c["n"]) + c["kind"]]
+        base = baseline[c["idx"]]
         v = c["violates"]
         # the property: with every check on, the request is refused by exactly the rule it violates …
         if not off:
